@@ -1039,6 +1039,7 @@ func callBuiltin(caller *frame, fn *ssa.Builtin, args []value) value {
 		case map[value]value:
 			delete(m, args[1])
 		case *hashmap:
+			caller.i.sharedMapWrite(m, caller, "map delete")
 			m.delete(caller.i, args[1])
 		default:
 			panic(fmt.Sprintf("illegal map type: %T", m))
